@@ -269,6 +269,9 @@ pub fn run(ctx: &mut Ctx) {
 
     decode_integers(ctx, "C15", false);
 
+    // hidden state: every ordered pair of encode / decode calls on a fresh thread against the lone call
+    crate::histpairs::pairwise(ctx, "C15", "encode_and_decode", crate::histpairs::calls_serde());
+
     // JSON: malformed strings with long non-ASCII tails (an error path that echoes or slices the input must not panic)
     let stems: Vec<(Ty, &str)> = vec![
         (Ty::Date, "2020/01/01"), (Ty::Date, "2020-01-01"), (Ty::Date, "2020-01x"), (Ty::Date, ""), (Ty::Time, "10:20:30,5"), (Ty::Time, "10.20"), (Ty::Time, ""),
